@@ -64,14 +64,15 @@ ScaleSection(recs, D, nc, core, i) ==
     LET ch == Channels(D, nc, core, i) IN ConcatAll([k \in 1..Len(ch) |-> recs[ch[k] + 1]])
 
 (* ---- observed ranges: records [core, depth, index, offset, scale_bytes, weight_offset, weight_bytes] *)
-Extent(r) == r.weight_offset + r.weight_bytes
+(* a range of a scales-only tensor has no weight section: its extent is the padded scale section *)
+Extent(r) == IF r.weight_bytes = 0 THEN Round16(r.scale_bytes) ELSE r.weight_offset + r.weight_bytes
 End(r) == r.offset + Extent(r)
 
 KeyedByCoreAndSlice(rs, n, nc, D, B) ==
     LET keys == KeySeq(n, nc, D, B)
     IN /\ Len(rs) = Len(keys)
        /\ \A k \in 1..Len(rs) : <<rs[k].core, rs[k].depth>> = keys[k]      \* listed in stream order
-Aligned16(rs) == \A k \in 1..Len(rs) : /\ rs[k].offset % 16 = 0
+RangesAligned16(rs) == \A k \in 1..Len(rs) : /\ rs[k].offset % 16 = 0
                                         /\ rs[k].weight_offset % 16 = 0    \* weight section starts aligned
                                         /\ rs[k].weight_bytes % 16 = 0
 Disjoint(rs) == \A a, b \in 1..Len(rs) : a # b => (End(rs[a]) <= rs[b].offset \/ End(rs[b]) <= rs[a].offset)
@@ -80,7 +81,7 @@ InStreamOrder(rs, buflen) ==
     /\ \A k \in 1..(Len(rs) - 1) : End(rs[k]) <= rs[k + 1].offset
     /\ \A k \in 1..Len(rs) : rs[k].offset >= 0 /\ End(rs[k]) <= buflen
 SectionsInsideRange(rs) == \A k \in 1..Len(rs) : /\ rs[k].scale_bytes >= 0 /\ rs[k].weight_bytes >= 0
-                                                  /\ rs[k].scale_bytes <= rs[k].weight_offset
+                                                  /\ (rs[k].weight_bytes > 0 => rs[k].scale_bytes <= rs[k].weight_offset)
 
 (* bytes of slice i = what one weight DMA of that slice brings into its buffer *)
 SliceBytes(rs, D, i) ==
